@@ -30,7 +30,14 @@ func genC01(seed uint64, r *rng.Rand) *Plan {
 				// longer than the search-key truncation limit
 				key = append(bytes.Repeat([]byte{'m'}, 33000), key...)
 			}
-			ops = append(ops, g.SingleOp(ts.Name, key, kinds))
+			o := g.SingleOp(ts.Name, key, kinds)
+			if g.R.Chance(0.04) {
+				// a call that cannot be marshalled (nil row): the multi it is
+				// batched into fails before anything is written; whatever the
+				// region clients do next must still be routed correctly
+				o = Op{Kind: "get", Table: ts.Name, Key: nil, Nonce: g.Nonce()}
+			}
+			ops = append(ops, o)
 		}
 		p.Tasks = append(p.Tasks, Task{Ops: ops})
 	}
